@@ -123,19 +123,49 @@ def composed_cases(tier):
     for a in mp:
         for b in mp:
             k += 1
-            yield dict(g=5, parts=[a, b], reverse=bool(k % 2))
+            # label modes rotate: residues without label ids, label ids ordering the other way round, assembly copies (same author ids, other label chain)
+            yield dict(g=5, parts=[a, b], reverse=bool(k % 2), labelmode=(k // 2) % 3)
     if tier != "quick" or True:
         for i, m in enumerate(mp):
-            yield dict(g=5, parts=[plain[i % len(plain)], m, plain[(i + 1) % len(plain)]], reverse=bool(i % 2))
+            yield dict(g=5, parts=[plain[i % len(plain)], m, plain[(i + 1) % len(plain)]], reverse=bool(i % 2), labelmode=i % 3)
+    # placements known to give a base pair (the committed seed list of the three-nucleotide family), as two or three assembly copies and under reversed label order
+    import json
+
+    with open(os.path.join(os.path.dirname(os.path.dirname(os.path.abspath(__file__))), "data", "g2_seeds.json")) as f:
+        seeds = json.load(f)
+    paired = []
+    for key, lst in sorted(seeds.items()):
+        c0 = key.split(":")[0]
+        for a in lst[:2]:
+            paired.append(dict(g=1, l1=c0, l2=a["l2"], r=a["r"], th=a["th"], ph=a["ph"], flip=a["flip"], rise=0.0, tilt=0.0))
+    paired = paired[:: max(1, len(paired) // 24)][:24]
+    for i, c in enumerate(paired):
+        yield dict(g=5, parts=[c, c], reverse=False, labelmode=2)
+        yield dict(g=5, parts=[c, paired[(i + 5) % len(paired)], c], reverse=bool(i % 2), labelmode=1 + i % 2)
+    # stacked and paired placements as assembly copies / under reversed label order
+    stacked = [c for k, c in enumerate(g1_stack("quick")) if k % 1499 == 0][:8]
+    for i, c in enumerate(stacked):
+        for lm in (1, 2):
+            yield dict(g=5, parts=[c, stacked[(i + 3) % len(stacked)], c], reverse=bool(i % 2), labelmode=lm)
 
 
 def structure_of(case):
     if case["g"] == 5:
         specs = []
+        lm = case.get("labelmode", 0)
+        n = len(case["parts"])
         for k, part in enumerate(case["parts"]):
             off = np.array([0.0, 60.0 * k, 25.0 * k])
             for (_, num, ic, rn, letter, atoms) in specs_of(dict(part, idmode=0, namemode=0, thinmode=0)):
-                specs.append(("ABCDEF"[k], num, ic, rn, letter, [(nm, np.asarray(xyz, float) + off) for nm, xyz in atoms]))
+                chain = "ABCDEF"[k]
+                label = None
+                if lm == 1:
+                    # label ids that order the residues the other way round than the author ids do (label chains C, B, A; label numbers descending)
+                    label = ("ABCDEF"[n - 1 - k], 100 - num)
+                elif lm == 2:
+                    # assembly copies: every group carries the SAME author identity (chain A, same numbers); only the label chain tells the copies apart
+                    chain, label = "A", ("A" if k == 0 else "A-%d" % (k + 1), num)
+                specs.append((chain, num, ic, rn, letter, [(nm, np.asarray(xyz, float) + off) for nm, xyz in atoms], label))
         if case.get("reverse"):
             # chains listed in reverse order (file order is not identity order)
             chains = sorted({sp[0] for sp in specs}, reverse=True)
